@@ -79,10 +79,14 @@ def c05_origin(f, sig, sched, pastify=False):
     from rtverif import ref_dense, ref_discrete, lang
     from rtverif.props import c05
     firsts = set(s[0][0] for s in sig.values())
-    if firsts == set([0]) or len(firsts) != 1:
+    if firsts == set([0]):
         return None
     if not any(g[0] in ('once', 'historically', 'since') and g[1] is not None for g in lang.walk(f)):
         return None
+    if len(firsts) != 1:
+        # unequal first stamps: the chunking does not survive the restriction to the common domain, so the
+        # defect model cannot be run; attributed by precondition only (class kept small by the generator)
+        return 'D-dense-origin'
     nsig, start = normalise_signals(sig)
     names = sorted(nsig)
     h = lang.horizon(f) if pastify else 0
